@@ -106,7 +106,9 @@ fn check_one<CS: BbsCiphersuite>(rep: &Report, ck: &str, c: &Case) -> CheckResul
             format!("sweep-{}", k).into_bytes()
         };
         // probes before the step: out-of-range positions and a wrong old value
-        for bad in [l, l + 1, 1usize << 32, usize::MAX - 1, usize::MAX] {
+        // ... among them the aliases of the step's own position under a narrowing cast: pos + k * 2^8, 2^16, 2^32, 2^48, 2^63
+        let aliases = [8u32, 16, 32, 48, 63].into_iter().flat_map(|b| [(1usize << b) + pos, ((7usize << b) >> if b == 63 { 2 } else { 0 }) | pos]).filter(|&x| x >= l);
+        for bad in [l, l + 1, 1usize << 32, usize::MAX - 1, usize::MAX].into_iter().chain(aliases) {
             rep.eval(ck, 1);
             match catch(|| sig.update_signature(sk, &old, &newv, bad, l)) {
                 Ok(Err(_)) => {}
@@ -249,7 +251,7 @@ pub fn run(ctx: &Ctx, rep: &Report) -> Meta {
     Meta {
         rule: "model-based histories: suite, key, header, L = 1..6 (quick) / 1..12 (thorough) plus sweeps over L in {24, 33, 64}, initial vector, then up to 12 / 32 generated (position, value) updates, optionally preceded by a sweep over every position; \
                model = current vector and A_k = B_ref(vector_k)/(sk + e) from the reference; after every step: update Ok, verify Ok, signature octets = model, Err for the last 8 earlier different vectors; \
-               probes at every step: positions {L, L+1, 2^32, usize::MAX-1, usize::MAX} must return Err (no panic), a wrong old value must not yield a signature valid for the intended vector; \
+               probes at every step: positions {L, L+1, 2^32, usize::MAX-1, usize::MAX, and pos + k*2^b for b in 8, 16, 32, 48, 63 (aliases of the step's position under a narrowing cast)} must return Err (no panic), a wrong old value must not yield a signature valid for the intended vector; \
                sweeps over every L in 7..=72 / 7..=200 with updates at the first, second, middle and last position, vectors of 255 / 256 / 257 / 300 messages updated at positions 0, 253..256 and last, fixed histories under contention, half of the cases after a warm-up history; non-trivial = history with >= 2 updates of which >= 1 at a position > 0; evaluations = oracle applications"
             .into(),
         assumptions: vec!["n is always the true number of signed messages (its documented meaning)".into()],
